@@ -100,6 +100,38 @@ Theorem C12_each_slow_epoch : forall sqrt_o o diag keys st pre h post st',
 Proof. exact last_slow_epoch. Qed.
 Print Assumptions C12_each_slow_epoch.
 
+(* kernel sequence + engine: which history reaches which kernel.  In a slow epoch kernel i is tuned on
+   the chain recorded for this very epoch, restricted to its own keys - whatever the other kernels
+   of the sequence are (needs_history or not, before or after it) and whatever was recorded for
+   earlier epochs (equal configs included) *)
+Theorem C12_engine_slow_epoch_own_history : forall sqrt_o o ks store e h ks' store' i diag keys st,
+  engine_epoch sqrt_o o ks store e h = Some (ks', store') ->
+  e_type e = ESlow ->
+  nth_error ks i = Some (KMM diag keys, st) ->
+  exists st', nth_error ks' i = Some (KMM diag keys, st') /\
+    tune sqrt_o o diag keys true st (Some (restrict keys h)) = Some st' /\
+    tune_mm o diag keys (restrict keys h) = Some (imm st').
+Proof. exact engine_slow_epoch_own_history. Qed.
+Print Assumptions C12_engine_slow_epoch_own_history.
+
+Theorem C12_engine_run_kernel : forall sqrt_o o eps ks store ks' store' i diag keys st,
+  engine_run sqrt_o o ks store eps = Some (ks', store') ->
+  nth_error ks i = Some (KMM diag keys, st) ->
+  exists st', nth_error ks' i = Some (KMM diag keys, st') /\
+    run_epochs sqrt_o o diag keys st (adapt_view eps) = Some st'.
+Proof. exact engine_run_kernel. Qed.
+Print Assumptions C12_engine_run_kernel.
+
+Theorem C12_engine_last_slow_epoch : forall sqrt_o o pre e h post ks store ks' store' i diag keys st,
+  engine_run sqrt_o o ks store (pre ++ (e, h) :: post) = Some (ks', store') ->
+  e_type e = ESlow ->
+  Forall (fun eh => e_type (fst eh) <> ESlow) post ->
+  nth_error ks i = Some (KMM diag keys, st) ->
+  exists st', nth_error ks' i = Some (KMM diag keys, st') /\
+    tune_mm o diag keys (restrict keys h) = Some (imm st').
+Proof. exact engine_last_slow_epoch. Qed.
+Print Assumptions C12_engine_last_slow_epoch.
+
 (* the tuned matrix has a positive trace and the step size is rescaled by sqrt(trace old / trace new) *)
 Theorem C12_trace_pos : forall o diag keys h new, tune_mm o diag keys h = Some new -> 0 < trace new.
 Proof. exact trace_pos. Qed.
@@ -184,3 +216,11 @@ Example C12_ex_each_slow_epoch : exists st',
     ([(false, Some ex_h2); (true, Some [("a"%string, [[0]; [8]])])] ++ (true, Some ex_h2) :: [(false, None); (true, None)])
     = Some st' /\ Forall no_retune [(false, @None history); (true, None)].
 Proof. exact ex_last_slow_epoch. Qed.
+
+(* a non-history kernel first and in the middle, two slow epochs with equal configs *)
+Example C12_ex_engine_last_slow_epoch : exists ks' store' st',
+  engine_run (fun _ => 1) Sorted ex_kseq [] ex_sched = Some (ks', store') /\
+  nth_error ks' 1 = Some (KMM true [("a"%string, 1%nat)], st') /\
+  tune_mm Sorted true [("a"%string, 1%nat)] (restrict [("a"%string, 1%nat)] (ex_h 6 8)) = Some (imm st') /\
+  imm st' = Diag [Qred (32 + reg)].
+Proof. exact ex_engine_last_slow_epoch. Qed.
